@@ -15,18 +15,23 @@ git -C /repo worktree add -q --detach $S/repo HEAD || exit 2
 rsync -a --exclude .git --exclude bin --exclude work --exclude replays --exclude evidence /verif/ $S/verif/
 mkdir -p $S/verif/evidence
 sed -i "s#=> /repo#=> $S/repo#" $S/verif/go.mod
+SEEDROOT=${SEEDROOT:-/verif/seeded}
 list="$@"
-[ -z "$list" ] && list=$(ls /verif/seeded)
+[ -z "$list" ] && list=$(ls $SEEDROOT)
 cd $S/verif && ./check --setup >/dev/null 2>&1
 for m in $list; do
-  d=/verif/seeded/$m
+  d=$SEEDROOT/$m
   props=$(python3 -c "
 import json,re
 m=json.load(open('$d/meta.json'))
 ids=re.findall(r'C[0-9][0-9]', m.get('detected_by',''))
 print(' '.join(dict.fromkeys(ids[:1] or [m['property']])))")
   cd $S/repo && git checkout -q -- . && git clean -fdq
-  if ! git apply $d/patch.diff 2>/dev/null; then echo "$m DOES-NOT-APPLY"; continue; fi
+  if ! git apply $d/patch.diff 2>/dev/null; then
+    if ! git apply --3way $d/patch.diff >/dev/null 2>&1; then git reset -q --hard HEAD; echo "$m DOES-NOT-APPLY"; continue; fi
+    git reset -q
+  fi
+  if ! go build ./... >/dev/null 2>&1; then echo "$m DOES-NOT-BUILD"; git checkout -q -- .; continue; fi
   cd $S/verif
   res=MISSED
   for p in $props; do
